@@ -860,7 +860,8 @@ class Prop(Check):
             if o["res"] == "semantic" and not un:
                 return (f"step {k}: the load failed at reference resolution but every reference has a visible "
                         f"definition (Repo.visible)")
-            if o["res"] in ("ok", "objproc", "modproc") and un:
+            # (a model processor error may come from an imported model, before references are resolved)
+            if o["res"] in ("ok", "objproc") and un:
                 return (f"step {k}: the load got past reference resolution ({o['res']}) but references {un} have "
                         f"no visible definition (Repo.visible)")
         return None
